@@ -35,6 +35,35 @@ def drive(tier):
                   {"res": [dec(hrp, s) for s in chunk]}, _cost=200 * len(chunk))
 
     hrps = ["bc", "tb", "bcrt", "a", "z" * 20, "abcdefghijklmnopqrstuvwxyz0234"]
+    def dec(hrp, s):
+        k, v = call(sa.decode, hrp, s)
+        if k == "ret" and v != (None, None) and v[0] is not None:
+            return {"k": "ret", "ver": v[0], "prog": list(v[1])}
+        if k == "ret":
+            return {"k": "none"}
+        return dict(exc_info(v), k="exc")
+
+    def rec_decode(hrp, s):
+        R.add("b32.decode", {"hrp": text(hrp), "s": text(s)}, dec(hrp, s))
+
+    def batch(hrp, ver, prog, strings, note):
+        for i in range(0, len(strings), 400):
+            chunk = strings[i:i + 400]
+            R.add("b32.batch", {"hrp": text(hrp), "ver": ver, "prog": b2l(prog), "strings": [text(s) for s in chunk], "note": note},
+                  {"res": [dec(hrp, s) for s in chunk]}, _cost=200 * len(chunk))
+
+    hrps = ["bc", "tb", "bcrt", "a", "z" * 20, "abcdefghijklmnopqrstuvwxyz0234"]
+    # total length 88..93 around the 90-character limit (40-byte program = 64 symbols: length = len(hrp) + 72)
+    for L in (16, 17, 18, 19, 20, 21):
+        hrp = "y" * L
+        for ver in (1, 16):
+            prog = gen.rbytes(r, 40)
+            raw = sa.bech32_encode(hrp, [ver] + sa.convertbits(list(prog), 8, 5))
+            rec_decode(hrp, raw)
+            rec_decode(hrp, raw.upper())
+            k, s_ = call(sa.encode, hrp, ver, list(prog))
+            if k == "ret" and s_ is not None:
+                R.add("b32.encode", {"hrp": text(hrp), "ver": ver, "prog": b2l(prog)}, {"k": "ret", "s": text(s_)})
     # codec: all versions x all program lengths (encode returns None for invalid combinations)
     for hrp in hrps:
         for ver in range(0, 18):
